@@ -248,8 +248,11 @@ def _cache_dir():
         shape = (len(PAD_LEVELS), len(PAD_LATS), len(PAD_LONS))
         for day in (1, 2, 3):
             if day in (1, 2):
-                times = np.array([np.datetime64(f'2024-09-0{day}T00') + np.timedelta64(h, 'h') for h in range(24)])
-                u = np.stack([np.full(shape, 100.0 * day + h) for h in range(24)])
+                # (WeatherCache.tla: the time axis of a file holds one step per hour from midnight; it need not cover the
+                # whole day - day 2 ends at 12 h: hour h is step h whatever the length of the axis)
+                nh = 24 if day == 1 else 13
+                times = np.array([np.datetime64(f'2024-09-0{day}T00') + np.timedelta64(h, 'h') for h in range(nh)])
+                u = np.stack([np.full(shape, 100.0 * day + h) for h in range(nh)])
                 ds = xr.Dataset({'u': (('valid_time', 'pressure_level', 'latitude', 'longitude'), u), 'v': (('valid_time', 'pressure_level', 'latitude', 'longitude'), np.zeros_like(u)),
                                  't': (('valid_time', 'pressure_level', 'latitude', 'longitude'), np.full(u.shape, 220.0))},
                                 coords={'valid_time': times, 'pressure_level': PAD_LEVELS, 'latitude': PAD_LATS[::-1], 'longitude': PAD_LONS})  # fmt: skip
